@@ -358,3 +358,7 @@ def check(ctx, rep):
     metarules.preparer_registration(ctx, rep, "C09.PREP")
     metarules.parent_ctor_guard(ctx, rep, "C09.PAR")
     metarules.for_class_rule(ctx, rep, "C09.META", ("mro", "attrs"))
+    metarules.preparer_always(ctx, rep, "C09.PREPALL")
+    metarules.options_verbatim(ctx, rep, "C09.OPT")
+    from .c17 import v_rule
+    v_rule(ctx, rep, "C09.UNKNOWN")       # unknown constructor keywords raise TypeError (every one of them, before anything is set)
